@@ -1,7 +1,7 @@
 #!/venv/bin/python
 """False-alarm battery: behaviour-preserving variants of /repo's source, every quick check run against each.
 
-usage: tools/benign_eval.py [variant ...] [--checks C01,C02,...]      (default: all variants, all 20 checks)
+usage: tools/benign_eval.py [variant ...] [--checks=C01,C02,...]      (default: all variants, all 20 checks)
 
 A variant is a copy of /repo/src under a scratch directory outside /repo and /verif (removed afterwards) with a mechanical,
 behaviour-preserving edit; it counts only if the repository's own test-suite still passes on it (186).  The checks are pointed
